@@ -1045,10 +1045,10 @@ func terminationPhase() {
 					rep.Violate(hx.Violation{Kind: "impl-violation", Signature: "C12:spin-returned-without-error", What: "infinite loop returned nil", Input: map[string]string{"engine": eng, "cache": mode}})
 				}
 				rep.Count("termination:stopped")
-			case <-time.After(60 * time.Second):
+			case <-time.After(30 * time.Second):
 				cancel()
 				rep.Violate(hx.Violation{Kind: "impl-violation", Signature: "C12:close-on-context-done-lost-on-cache-hit",
-					What:  "a runtime with WithCloseOnContextDone(true) sharing a cache warmed by a runtime without it: the guest's infinite loop was not stopped 60 s after the context deadline (without a cache it stops)",
+					What:  "a runtime with WithCloseOnContextDone(true) sharing a cache warmed by a runtime without it: the guest's infinite loop was not stopped 30 s after the context deadline (without a cache it stops)",
 					Input: map[string]string{"engine": eng, "cache": mode, "bin_hex": hex.EncodeToString(bin)}})
 				rep.Write(orc)
 				os.Exit(0) // the spinning goroutine cannot be stopped
